@@ -356,4 +356,3 @@ package ext
 //@   ghostset after Is#0: heNeedMore = result
 //@   top-ensures heNeedMore && err == nil ==> r == errNeedMore
 //@   top-ensures r != nil
-
